@@ -721,7 +721,9 @@ func Input(l *InputSharedVars, g *GlobalVarsMain, hPath *HFilePath, driConfig *C
 						}
 
 					}
-					for i := 1; i <= NDu; i++ {
+					// slot 0 is the harvest residue of the initial crop, not a scheduled fertilisation:
+					// a fertilisation dated on the start day keeps its date, both are applied on the same day
+					for i := 2; i <= NDu; i++ {
 						index := i - 1
 						if g.ZTDG[index+1] == g.ZTDG[index] {
 							g.ZTDG[index+1] = g.ZTDG[index+1] + 1
